@@ -156,6 +156,13 @@ def work_deep(task):
         for digits in seeds.g1_patterns(k, level):
             check_cell(acc, lib, segmap, f, seg, seeds.digits_to_s(digits), r, ids)
             cnt += 1
+            if r == 30:
+                # history: a valid resolution-29 cell encoded right after the (rejected) resolution-30 request must still match the layout
+                before = len(acc.vmap)
+                check_cell(acc, lib, segmap, f, seg, seeds.digits_to_s(digits[:-1]), 29)
+                acc.n['states'] -= 1
+                if len(acc.vmap) > before:
+                    acc.notes.append('a resolution-29 encode went wrong right after a rejected resolution-30 encode')
         if r <= 29:
             check_rejects(acc, lib, f, seg, r)
     if len(ids) != cnt and not acc.violations:
